@@ -154,7 +154,7 @@ func c10Call(cs *core.Case, p rtcp.Packet, want []uint32, aspect string, det fun
 }
 
 func runC10(c *core.Ctx) {
-	c.Section("values", c.N(800000, 12000000), func(cs *core.Case) {
+	c.Section("values", c.N(800000, 100000000), func(cs *core.Case) {
 		r := cs.R
 		p := valueOf(cs, gen.Opts{Small: r.Chance(1, 2), NoBig: true})
 		k := gen.KindOf(p)
